@@ -36,7 +36,7 @@ def register(S):
                outcomes=[{"label": "ok", "events": [("Hook", "'disconnect'")]}])
     # ---- _cleanup / close --------------------------------------------------------------------------------------
     HOOKED = {"internal_hook_exactly_once": ("n_ev('Hook') == 1", P11),
-              "clean": (CLEAN, P11)}
+              "clean": (CLEAN, P11 + ["C10"])}
     S.contract(F + "_cleanup", params={"self": "obj:Connection", "_anyway": "bool"},
                abstract_calls={"self._local_root.on_disconnect": "hook_disconnect"},
                dispatch=[("_anyway", "forced"), (None, "lazy")],
